@@ -465,6 +465,13 @@ macro_rules! impl_bytes_mut_utils {
     pub unsafe fn put<T>(&mut self, val: T) -> Result<&mut T, InsufficientBuffer> { unsafe {
       let size = core::mem::size_of::<T>();
 
+      // a zero sized value occupies no memory, and the current position may not be aligned for it.
+      if size == 0 {
+        let ptr = core::ptr::NonNull::<T>::dangling().as_ptr();
+        ptr.write(val);
+        return Ok(&mut *ptr);
+      }
+
       if self.len + size > self.capacity() {
         return Err(InsufficientBuffer::with_information(size as u64, (self.capacity() - self.len) as u64));
       }
